@@ -157,6 +157,9 @@ def queries(g, L, known, grid, rng=None, nb_limit=None, times=None):
                       lambda: g.number_of_interactions(c, cm, t=ct), L)
                 _call(E, "dn_number_of_interactions_uv", t, None, n, m, "int",
                       lambda: dn.number_of_interactions(g, c, cm, t=ct), L)
+                if directed:
+                    _call(E, "has_successor", t, None, n, m, "bool", lambda: g.has_successor(c, cm, t=ct), L)
+                    _call(E, "has_predecessor", t, None, n, m, "bool", lambda: g.has_predecessor(c, cm, t=ct), L)
         _call(E, "has_node", t, None, unknown, 0, "bool", lambda: g.has_node(cn(unknown), t=ct), L)
         _call(E, "nodes", t, None, 0, 0, "nodes", lambda: g.nodes(t=ct), L)
         _call(E, "nodes_iter", t, None, 0, 0, "nodes", lambda: g.nodes_iter(t=ct), L)
